@@ -64,7 +64,7 @@ func mirrorSFlowDispatcher(ch chan SFUDPMsg) {
 
 func mirrorSFlow(dst net.IP, port int, ch chan SFUDPMsg) error {
 	var (
-		packet = make([]byte, opts.SFlowUDPSize)
+		packet []byte
 		msg    SFUDPMsg
 		pLen   int
 		err    error
@@ -95,6 +95,9 @@ func mirrorSFlow(dst net.IP, port int, ch chan SFUDPMsg) error {
 		ipHdr = ip.Marshal()
 		ipHLen = mirror.IPv6HLen
 	}
+
+	// room for the IP and UDP headers in front of the largest payload
+	packet = make([]byte, ipHLen+mirror.UDPHLen+opts.SFlowUDPSize)
 
 	for {
 		msg = <-ch
